@@ -19,10 +19,42 @@ def _validate(trace):
     return m.group(1), int(m.group(2))
 
 
+def _validate_write(trace):
+    """TraceMuxWrite.tla: is what the peer read 'every completed write, a prefix of every failed one, in order, nothing else'?"""
+    r = common.tlc("network", "TraceMuxWrite", cfg="TraceMuxWrite.cfg", workers=1, timeout=600, env_extra={"TRACE": trace}, dfs=True, xss="1g", xmx="4g")
+    if r.ok:
+        return None, r.distinct
+    m = re.search(r'"TRACE-NOT-EXPLAINED",\s*"[^"]*",\s*(\d+)', r.out)
+    if r.violated == "NoHoleT":
+        return "data accepted by a write is missing from what the stream carries (NoHole of MuxWrite.tla)", r.distinct
+    if m:
+        return ("what the peer's reader obtained is not 'every completed write, a prefix of every failed one, in order': no behaviour of MuxWrite.tla explains "
+                f"event {m.group(1)} of the recorded run"), r.distinct
+    raise common.ToolError("TraceMuxWrite failed without a verdict:\n" + r.out[-1500:])
+
+
+def _model_write():
+    res = {}
+    for weaken in ("none", "detach_before_reserve"):
+        cfgname = "MC_MuxWrite_gen.cfg"
+        with open(os.path.join(common.SPECS, "network", cfgname), "w") as f:
+            f.write(f'CONSTANTS FrameSize = 3 MaxBytes = 9 MaxCall = 4 Weaken = "{weaken}"\nINIT Init\nNEXT Next\nINVARIANTS NoHole Complete\nCHECK_DEADLOCK FALSE\n')
+        try:
+            res[weaken] = common.tlc("network", "MuxWrite", cfg=cfgname, workers=2, timeout=600)
+        finally:
+            os.remove(os.path.join(common.SPECS, "network", cfgname))
+    if not res["none"].ok:
+        raise common.ToolError("MuxWrite.tla: NoHole / Complete fail on the specification:\n" + res["none"].out[-1500:])
+    if res["detach_before_reserve"].violated != "NoHole":
+        raise common.ToolError("MuxWrite.tla: the weakened variant does not violate NoHole - the check is vacuous")
+    return res["none"]
+
+
 def run(tier, seed):
     t0 = time.time()
     common.cargo_build()
     d = common.outdir(PROP)
+    mw = _model_write()
     cfgname = "MC_Mux_gen.cfg"
     with open(os.path.join(common.SPECS, "network", cfgname), "w") as f:
         f.write(f"CONSTANTS MaxInc = {2 if tier == 'quick' else 3} MaxData = 2\nSPECIFICATION Spec\nINVARIANTS Isolation EosLocal Matched\nCHECK_DEADLOCK FALSE\n")
@@ -43,12 +75,16 @@ def run(tier, seed):
     common.write_ndjson(mbp, mb_cases)
     nseeds = 8 if tier == "quick" else 60
     traces, streams, samples, viol = 0, 0, [], 0
+    wruns, wstates, wfailed = 0, 0, 0
     try:
         for k in range(nseeds):
             s = seed * 100 + k
             trace = os.path.join(d, f"t_{s}.ndjson")
             rep = os.path.join(d, f"r_{s}.json")
-            rc, so, se = common.run_bin("mux_drv", [trace, rep, s] + ([mbp] if k % 4 == 0 else []), timeout=600)
+            wtrace = os.path.join(d, f"w_{s}.ndjson")
+            if os.path.exists(wtrace):
+                os.remove(wtrace)
+            rc, so, se = common.run_bin("mux_drv", [trace, rep, s, mbp if k % 4 == 0 else "-", wtrace], timeout=600)
             if rc != 0 and not os.path.exists(rep):
                 raise common.ToolError("mux_drv failed: " + se[-800:])
             r = common.load_report(rep)
@@ -60,6 +96,15 @@ def run(tier, seed):
             verdict, n = _validate(trace)
             traces += 1
             streams += n
+            wfailed += r["counters"].get("cancel_writes_failed_calls", 0)
+            if os.path.exists(wtrace):
+                wv, wn = _validate_write(wtrace)
+                wruns += 1
+                wstates += wn
+                if wv:
+                    viol = 1
+                    path = common.write_replay(PROP, "write_trace_violation", {"property": PROP, "case": {"seed": s}, "what": wv, "trace": wtrace})
+                    raise common.Violation(PROP, wv, path)
             if len(samples) < 2:
                 samples.append({"run": r["samples"][0], "flood": {k2: v for k2, v in r["counters"].items() if k2.startswith("flood")}})
             if verdict != "ok":
@@ -73,7 +118,10 @@ def run(tier, seed):
                        "capability and side, 3 capabilities, 12 client tasks x 6 streams with message sizes around the frame size, seeded fragmentation of the "
                        "transport; evaluations = transient streams paired by TLC; plus one flood scenario per seed; "
                        f"MuxBuffer.tla ({mb.distinct} states, Bounded + AllPulled): {len(mb_cases)} flood scenarios of a raw peer against a non-reading application, bytes pulled "
-                       "from the transport compared with the specification's blocked state (exact)",
+                       "from the transport compared with the specification's blocked state (exact); "
+                       f"MuxWrite.tla ({mw.distinct} states, NoHole + Complete; weakened variant violates NoHole): per seed one run of 36 write_all calls under short deadlines "
+                       "against a peer that reads late over a 512-byte pipe, validated by TraceMuxWrite.tla (hand-over to the writer task inferred)",
+               "write_half": {"runs_validated": wruns, "write_calls_that_failed_under_backpressure": wfailed, "tlc_states": wstates},
                "exhaustive": True}
         common.write_evidence(PROP, tier, seed, "model_checking", cov,
                               ["thread interleavings of the real runtime are perturbed (fragmentation, Pending), not controlled",
@@ -93,11 +141,18 @@ def replay(path, seed):
     mb = common.tlc("network", "MC_MuxBuffer", cfg="MC_MuxBuffer.cfg", workers=1, timeout=900)
     mbp = os.path.join(d, "muxbuffer_cases.ndjson")
     common.write_ndjson(mbp, mb.printed("CASE"))
-    common.run_bin("mux_drv", [trace, rep, c["seed"], mbp])
+    wtrace = os.path.join(d, "replay_w.ndjson")
+    if os.path.exists(wtrace):
+        os.remove(wtrace)
+    common.run_bin("mux_drv", [trace, rep, c["seed"], mbp, wtrace])
     r = common.load_report(rep)
     common.handle_failures(PROP, r["failures"], "replay_failure")
     verdict, n = _validate(trace)
     if verdict != "ok":
         raise common.Violation(PROP, verdict, path)
+    if os.path.exists(wtrace):
+        wv, _ = _validate_write(wtrace)
+        if wv:
+            raise common.Violation(PROP, wv, path)
     log("replay: no violation")
     return 0
